@@ -1,4 +1,7 @@
 """C04: decision protocol of the primal-dual interior-point LP/QP solver (src/program/solver.cpp)."""
+import os
+import sys
+sys.path.insert(0, os.path.dirname(os.path.abspath(__file__)))
 import astload
 from core import Fn, Target
 import hooks
@@ -288,8 +291,10 @@ def build(tier):
         Target('solve_with_inequality_res', [swi('solve_with_inequality_res'), done_abs(), ctor()], H),
         Target('solve_without_inequality', [swo(), ctor()], H),
     ]
+    import realvcs
+    bounded, finfo = realvcs.build(tier)
     return {
-        'targets': targets, 'vcs': smax_real_vcs(),
+        'targets': targets, 'vcs': smax_real_vcs(), 'bounded': bounded, 'functions': finfo,
         'decided': [
             'solver_t::done: status\' == converged <=> program.feasible(state) && eta < eps && no residual norm (|rdual|, |rprim|) is >= eps; '
             'otherwise unbounded if feasible, unfeasible if not; nothing but m_status is written (for norms that are not NaN this is literally '
